@@ -44,8 +44,8 @@ type C05Call struct {
 }
 
 // C05Horizon is the step bound of one execution; the longest terminating execution of any
-// scenario is far below it (the maximum observed is recorded in the evidence).
-const C05Horizon = 600
+// scenario is well below it (the maximum observed is recorded in the evidence).
+const C05Horizon = 400
 
 // C05BigSlowStart is the slow-start time (seconds) used when slow start is toggled on: with it
 // the time-dependent weight of a restarted backend stays 0 for the first 10^4 seconds, so the
@@ -228,8 +228,7 @@ func C05Judge(r *vk.Run, class, id string, out vsched.Outcome, calls []*C05Call,
 	}
 	spun := ""
 	if out.Horizon && out.Panic == "" {
-		tr, last := out.Trace, out
-		_, _, diag := rerun(tr, C05Horizon) // same schedule once more, for the seam's diagnosis
+		tr, last, diag := out.Trace, out, ""
 		confirmed := false
 		for round := 1; round <= 16; round++ {
 			ext := "1"
@@ -238,7 +237,13 @@ func C05Judge(r *vk.Run, class, id string, out vsched.Outcome, calls []*C05Call,
 			}
 			o2, c2, d2 := rerun(ext, C05Horizon*(round+1))
 			if strings.Contains(o2.Panic, "replay divergence") {
-				confirmed = true
+				// nobody else can run any more: the remaining thread alone gets one more full horizon
+				o3, c3, d3 := rerun(tr, C05Horizon*(round+1))
+				if o3.Horizon {
+					confirmed, last, diag = true, o3, d3
+				} else {
+					out, calls, spun = o3, c3, "spin-ended-by-other-thread:"
+				}
 				break
 			}
 			if !o2.Horizon {
@@ -561,6 +566,9 @@ func c05valid(s c05scn) bool {
 			}
 		}
 	}
+	if s.flip == "u0" && !strings.Contains(s.init, "d0") {
+		return false
+	}
 	if s.flip == "u1" && !strings.Contains(s.init, "d1") {
 		return false // u1 restores the backend that starts unavailable (and only then means anything)
 	}
@@ -637,7 +645,11 @@ func c05slbPasses(thorough bool) []c05pass {
 		// positive-weight backend down
 		negShapes, negInits, negFlips, negUpds := [][]int{{1, -1}}, []string{"", "x"}, []string{"d0", "d0u0", "f0f1"}, []string{"U+", "Uz"}
 		if thorough {
-			negShapes, negInits, negFlips, negUpds = [][]int{{1, -1}, {-1, 1}, {1, -1, 0}}, []string{"", "x", "d0", "xd1"}, flips, upds
+			negShapes, negFlips, negUpds = [][]int{{1, -1}, {-1, 1}}, flips, []string{"U+", "Uz", "U-", "S1U+", "S1"}
+			// the positive-weight backend is already down at the start: every interleaving of
+			// WrrSimple spins from the first step on (expensive), so only two scenarios
+			add(&b, c05scn{algo: algo, ws: []int{1, -1}, init: "d0", bal: [2]int{1, 1}, flip: "u0"})
+			add(&c, c05scn{algo: algo, ws: []int{1, -1}, init: "d0", bal: [2]int{1, 1}, upd: "U+"})
 		}
 		for _, ws := range negShapes {
 			for _, in := range negInits {
